@@ -384,7 +384,30 @@ def r16_7(chk):
     chk.floor("R16.7", 1, "_initialised_alt")
 
 
+def r16_8(chk):
+    chk.rule("R16.8", "the function is initialised from the nested fit AFTER its parameter scopes have their final shape: in app.evo.model._configure_lf no scope-changing call (set_time_heterogeneity, apply_param_rules, set_param_rule) is reachable after `initialise(lf, identifier)` -- initialise_from_nested refuses (asserts nfp is larger) a function that has not yet been given its extra scopes, _InitFrom swallows the error, and the alternate then starts from defaults and can finish below the null")
+    from ..cfg import build
+
+    m = chk.repo.module("app/evo.py")
+    q = "model._configure_lf"
+    fn = m.func(q)
+    g = build(fn)
+    inits = g.nodes_containing(lambda x: isinstance(x, ast.Call) and isinstance(x.func, ast.Name) and x.func.id == "initialise")
+    scopers = g.nodes_containing(lambda x: isinstance(x, ast.Call) and isinstance(x.func, ast.Attribute) and x.func.attr in ("set_time_heterogeneity", "apply_param_rules", "set_param_rule"))
+    if not inits or not scopers:
+        raise AnalysisError(f"{q}: initialise(...) / scope-changing calls not found")
+    bad = None
+    for i_ in inits:
+        seen = g.reachable([b for b, kd in i_.succ if kd == "n"], kinds=("n",))
+        for sc in scopers:
+            if id(sc) in seen:
+                bad = (i_, sc)
+    chk.decide(bad is None, "R16.8", key(m, q, "initialised after the scopes are final"), m.loc(bad[0].ast if bad else inits[0].ast), "no scope-changing call is reachable after initialise(...)", f"`{norm(bad[1].ast)[:60] if bad else ''}` runs after `{norm(bad[0].ast)[:40] if bad else ''}`: for a time-heterogeneous alternate of the same model the nested initialisation is refused and silently skipped (hypothesis(HKY85, HKY85 time_het='max', max_evaluations=10) gives a negative LR)")
+    chk.floor("R16.8", 1, "_configure_lf")
+
+
 def run(chk):
+    r16_8(chk)
     r16_7(chk)
     r16_6(chk)
     r16_5(chk)
